@@ -167,7 +167,7 @@ def opDbc (j : Json) : Except String Json := do
       | some impl =>
         match generate S true fuel impl with
         | none => frames := frames.push Json.null
-        | some (ls, _) => frames := frames.push (J.natsToJson (pack (packLeaves ls vs.toList)))
+        | some (ls, _) => frames := frames.push (J.natsToJson (pack (packLeavesE ls vs.toList)))
     out := out ++ [("frames", Json.arr frames)]
   | .error _ => pure ()
   return Json.mkObj out
